@@ -147,6 +147,10 @@ pub struct StepOut {
 // In-memory engine
 
 struct SimEngineInner {
+    /// number of the first block held by the store (genesis.first_block unless the node has pruned)
+    base: u64,
+    /// blocks the node has pruned (not served any more; kept to reconstruct the full chain for the harness)
+    pruned_prefix: Vec<validator::Block>,
     genesis: validator::Genesis,
     persisted: sync::watch::Sender<BlockStoreState>,
     blocks: Mutex<Vec<validator::Block>>,
@@ -181,6 +185,8 @@ impl SimEngine {
         let blocks: Vec<validator::Block> = local.blocks.iter().cloned().map(validator::Block::FinalV2).collect();
         let last = local.blocks.last().map(|b| Last::FinalV2(b.justification.clone()));
         SimEngine(Arc::new(SimEngineInner {
+            base: w.c.genesis.first_block.0,
+            pruned_prefix: vec![],
             genesis: w.c.genesis.clone(),
             persisted: sync::watch::channel(BlockStoreState { first: w.c.genesis.first_block, last }).0,
             blocks: Mutex::new(blocks),
@@ -206,14 +212,47 @@ impl SimEngine {
     }
     /// The durable image as it is now (what a restart would find).
     pub fn durable_local(&self) -> Local {
-        let blocks: Vec<v2::FinalBlock> = self.0.blocks.lock().unwrap().iter().filter_map(|b| match b {
+        let blocks: Vec<v2::FinalBlock> = self.0.pruned_prefix.iter().chain(self.0.blocks.lock().unwrap().iter()).filter_map(|b| match b {
             validator::Block::FinalV2(f) => Some(f.clone()),
             _ => None,
         }).collect();
         Local { durable: self.0.state.lock().unwrap().clone(), blocks, ..Local::initial() }.restarted()
     }
+    /// Number of blocks the node has stored so far (pruned ones included).
     pub fn stored_blocks(&self) -> usize {
-        self.0.blocks.lock().unwrap().len()
+        self.0.pruned_prefix.len() + self.0.blocks.lock().unwrap().len()
+    }
+    /// The durable image of `local` after the node has pruned its first `drop` stored blocks (a node
+    /// restored from a snapshot at its head has pruned all of them: empty store starting at head + 1).
+    pub fn from_local_pruned(w: &World, local: &Local, drop: usize) -> Self {
+        let e = Self::from_local(w, local);
+        let drop = drop.min(local.blocks.len());
+        let all: Vec<validator::Block> = local.blocks.iter().cloned().map(validator::Block::FinalV2).collect();
+        let base = w.c.genesis.first_block.0 + drop as u64;
+        let kept: Vec<validator::Block> = all[drop..].to_vec();
+        let last = kept.last().map(|b| match b {
+            validator::Block::FinalV2(f) => Last::FinalV2(f.justification.clone()),
+            validator::Block::PreGenesis(p) => Last::PreGenesis(p.number),
+        });
+        let inner = &e.0;
+        let state = inner.state.lock().unwrap().clone();
+        SimEngine(Arc::new(SimEngineInner {
+            base,
+            pruned_prefix: all[..drop].to_vec(),
+            genesis: inner.genesis.clone(),
+            persisted: sync::watch::channel(BlockStoreState { first: validator::BlockNumber(base), last }).0,
+            blocks: Mutex::new(kept),
+            state: Mutex::new(state),
+            proposals: inner.proposals.clone(),
+            invalid: inner.invalid.clone(),
+            set_state_calls: AtomicUsize::new(0),
+            crash: None,
+            crashed: AtomicBool::new(false),
+            bad_store_request: Mutex::new(None),
+            stall: sync::watch::channel(false).0,
+            verify_delay: Mutex::new(None),
+            armed: AtomicBool::new(false),
+        }))
     }
     pub fn durable_view(&self) -> u64 {
         let ReplicaState::V2(d) = &*self.0.state.lock().unwrap();
@@ -223,6 +262,8 @@ impl SimEngine {
     /// An empty store for the given instance (used by harnesses that only need an EngineManager).
     pub fn new_empty(w: &World) -> Self {
         SimEngine(Arc::new(SimEngineInner {
+            base: w.c.genesis.first_block.0,
+            pruned_prefix: vec![],
             genesis: w.c.genesis.clone(),
             persisted: sync::watch::channel(BlockStoreState { first: w.c.genesis.first_block, last: None }).0,
             blocks: Mutex::new(vec![]),
@@ -255,14 +296,14 @@ impl EngineInterface for SimEngine {
         self.0.persisted.subscribe()
     }
     async fn get_block(&self, _ctx: &ctx::Ctx, number: validator::BlockNumber) -> ctx::Result<validator::Block> {
-        let first = self.0.genesis.first_block.0;
+        let first = self.0.base;
         let b = self.0.blocks.lock().unwrap();
         Ok(b.get(number.0.checked_sub(first).ok_or_else(|| anyhow::format_err!("not found"))? as usize).cloned().ok_or_else(|| anyhow::format_err!("not found"))?)
     }
     async fn queue_next_block(&self, ctx: &ctx::Ctx, block: validator::Block) -> ctx::Result<()> {
         sync::wait_for(ctx, &mut self.0.stall.subscribe(), |stalled| !*stalled).await?;
         let mut b = self.0.blocks.lock().unwrap();
-        let want = self.0.genesis.first_block.0 + b.len() as u64;
+        let want = self.0.base + b.len() as u64;
         if block.number().0 != want {
             *self.0.bad_store_request.lock().unwrap() = Some(format!("queue_next_block({}) but the durable head expects {want}", block.number().0));
             return Err(anyhow::format_err!("got block {}, want {want}", block.number().0).into());
@@ -354,6 +395,8 @@ pub fn step(w: &World, idx: usize, local: &Local, input: &Input, policy: &Policy
     let blocks: Vec<validator::Block> = local.blocks.iter().cloned().map(validator::Block::FinalV2).collect();
     let last = local.blocks.last().map(|b| Last::FinalV2(b.justification.clone()));
     let eng = SimEngine(Arc::new(SimEngineInner {
+        base: w.c.genesis.first_block.0,
+        pruned_prefix: vec![],
         genesis: w.c.genesis.clone(),
         persisted: sync::watch::channel(BlockStoreState { first, last }).0,
         blocks: Mutex::new(blocks),
@@ -622,6 +665,22 @@ pub fn run_loops_until_proposals(ch: &core::Ch, w: &World, nodes: &[(usize, Loca
 
 thread_local! {
     static PROPOSAL_LIMIT: std::cell::Cell<usize> = const { std::cell::Cell::new(usize::MAX) };
+    static PRUNE_FIRST: std::cell::Cell<usize> = const { std::cell::Cell::new(0) };
+}
+
+/// Like `run_loops_locals`, but every node has pruned its first `drop` stored blocks before it starts
+/// (with `drop` = the lowest number of stored blocks among the nodes: everybody restored from a
+/// snapshot at the common head; missing blocks below it can not be fetched from anybody any more).
+pub fn run_loops_pruned(ch: &core::Ch, w: &World, nodes: &[(usize, Local)], max_rounds: u32, drop: usize) -> (RunLoopsOut, Vec<Local>) {
+    PRUNE_FIRST.with(|l| l.set(drop));
+    let r = run_loops_with(ch, w, nodes, max_rounds, false, false);
+    PRUNE_FIRST.with(|l| l.set(0));
+    r
+}
+
+/// Like `run_loops`, also returning the durable images at the end (to chain good periods).
+pub fn run_loops_locals(ch: &core::Ch, w: &World, nodes: &[(usize, Local)], max_rounds: u32) -> (RunLoopsOut, Vec<Local>) {
+    run_loops_with(ch, w, nodes, max_rounds, false, false)
 }
 
 /// Good period in which the execution layer needs one and a half view timeouts to verify a payload
@@ -640,7 +699,8 @@ pub fn stalled_storage_then_crash(ch: &core::Ch, w: &World, nodes: &[(usize, Loc
 
 fn run_loops_with(ch: &core::Ch, w: &World, nodes: &[(usize, Local)], max_rounds: u32, stalled: bool, slow_verify: bool) -> (RunLoopsOut, Vec<Local>) {
     use zksync_consensus_network::io::{ConsensusInputMessage, ConsensusReq};
-    let engines: Vec<SimEngine> = nodes.iter().map(|(_, l)| SimEngine::from_local(w, l)).collect();
+    let prune_first = PRUNE_FIRST.with(|l| l.get());
+    let engines: Vec<SimEngine> = nodes.iter().map(|(_, l)| if prune_first > 0 { SimEngine::from_local_pruned(w, l, prune_first) } else { SimEngine::from_local(w, l) }).collect();
     for e in &engines {
         e.set_stalled(stalled);
         if slow_verify {
